@@ -15,6 +15,10 @@ pub struct Counters {
   pub track_subscribes: usize,
   /// calls of the closures given to map / filter / scan
   pub fn_calls: usize,
+  /// script step at which each `defer` factory ran (= the moment of subscription)
+  pub defer_steps: Vec<usize>,
+  /// virtual time (ticks) at which each `defer` factory ran
+  pub defer_vts: Vec<u64>,
   pub fut_polls: usize,
 }
 
@@ -40,6 +44,8 @@ pub struct Trace {
   pub pending_timers_end: usize,
   pub quiescent: bool,
   pub status_flags: Vec<(bool, bool)>,
+  /// every duration asked from the timer function (ms), in order
+  pub requested: Vec<u64>,
 }
 
 impl Trace {
